@@ -974,7 +974,54 @@ def recycle_ir(rng):
     return ir
 
 
+def regslots_ir(rng):
+    """Directed programs for gate addressing: registers whose elements sit on recycled, non-consecutive
+    simulator slots (objects owning qubits were destroyed before, plain qubits declared in between), with a
+    gate on every element through every index form, then the whole register measured."""
+    ir = [dict(k="ops")]
+    uid = [0]
+
+    def fresh(p):
+        uid[0] += 1
+        return "%s%d" % (p, uid[0])
+    objs = []
+    for _ in range(rng.randint(1, 2)):
+        o = fresh("o")
+        objs.append(o)
+        ir.append(dict(k="new", name=o, cls=rng.choice(["H1", "HA", "HP", "HT", "H1S"]), via="new"))
+        if rng.random() < 0.5:
+            ir.append(dict(k="decl", name=fresh("a"), n=None, tracked=False))
+    rng.shuffle(objs)
+    for o in objs:
+        ir.append(dict(k="destroy", name=o))
+        if rng.random() < 0.3:
+            ir.append(dict(k="decl", name=fresh("a"), n=None, tracked=False))
+    r_ = fresh("r")
+    n = rng.randint(2, 3)
+    ir.append(dict(k="decl", name=r_, n=n, tracked=rng.random() < 0.5))
+    idxs = list(range(n))
+    rng.shuffle(idxs)
+    for i in idxs:
+        g = rng.choice(["x", "x", "h", "y", "ry"])
+        ir.append(dict(k="gate", g=g, via=rng.choice(["direct", "func"]), qs=[("e", r_, i, rng.choice("ckx"))],
+                       theta=0.5 if g == "ry" else None, tform="lit"))
+    if n >= 2 and rng.random() < 0.6:
+        a, b = rng.sample(range(n), 2)
+        ir.append(dict(k="gate", g="cx", via="direct", qs=[("e", r_, a, "c"), ("e", r_, b, "k")], theta=None))
+    if rng.random() < 0.7:
+        ir.append(dict(k="measure_reg", kind="reg", name=r_, field=None))
+    else:
+        for i in range(n):
+            b = fresh("b")
+            ir.append(dict(k="measure", q=("e", r_, i, "c"), form="expr", bit=b))
+            ir.append(dict(k="echo_bit", bit=b))
+    return ir
+
+
 def generate(rng, profile, length=None, shots_annotation=None, max_qubits=6):
+    if profile == "regslots":
+        ir = regslots_ir(rng)
+        return ir, Renderer(shots_annotation).render(ir)
     if profile == "recycle":
         ir = recycle_ir(rng)
         return ir, Renderer(shots_annotation).render(ir)
@@ -1661,6 +1708,8 @@ def run_language_path(ctx, prop):
     cases = [dict(profile=profile, index=i) for i in range(n)]
     if prop == "C02":
         cases += [dict(profile="views", index=i, shots=(3 if i % 2 else 0)) for i in range(ctx.n(120, 2000))]
+    if prop == "C01":
+        cases += [dict(profile="regslots", index=i) for i in range(ctx.n(100, 1500))]
     if prop in ("C04", "C03"):
         cases += [dict(profile="releases", index=i) for i in range(ctx.n(150, 2500))]
 
